@@ -14,7 +14,7 @@ from ..world import real_eval
 
 ID = 'C02'
 LEVEL = 'exploration'
-TIERS = {'quick': 12000, 'thorough': 500000}
+TIERS = {'quick': 12000, 'thorough': 300000}
 RULE = ('seeded histories of 4-16 evals on one parser over one persistent plain-data names mapping; each eval applies '
         '1-3 composed entries of the LIVE function table (all of them, mutators included) to current names incl. earlier '
         'results, literals, attribute-like / format-like strings, builtins and lambdas passed as values, slices and '
